@@ -615,7 +615,32 @@ def rule_unchanged_is_equality(ctx: Ctx, rep: Report) -> None:
     rep.floor(rule, 2)
 
 
+def rule_extractor_gate(ctx: Ctx, rep: Report) -> None:
+    """C11.extractor_gate: BIP174's Transaction Extractor "checks whether all inputs
+    have complete scriptSigs and scriptWitnesses" and does nothing otherwise.
+    extract_tx refuses -- on every path to its answer, and not only under
+    check_validity -- an input for which both `final_script_sig` and
+    `final_script_witness` are absent: without that gate a signed but
+    unfinalized psbt is answered as a transaction with empty inputs."""
+    rule = "C11.extractor_gate"
+    fi = ctx.func(f"{P}.extract_tx")
+    g = ctx.cfg(fi)
+    gates = []
+    for t, pol, node in ctx.refusals(fi):
+        txt = str(norm(t))
+        if "final_script_sig" in txt and "final_script_witness" in txt:
+            gates.append((t, node))
+    rep.ob(rule, "extract_tx:gate", bool(gates), fi.where(), "an input with neither final field is refused" if gates else
+           "extract_tx has no refusal of an input with neither final_script_sig nor final_script_witness: an unfinalized psbt is extracted")
+    if gates:
+        t, node = gates[0]
+        under = [str(x) for x, pol in g.facts_at_ast(t) if "check_validity" in str(x)]
+        rep.ob(rule, "extract_tx:unconditional", not under, fi.where(t), "the gate does not depend on check_validity" if not under else f"the gate is under {under}: with check_validity=False an unfinalized psbt is extracted")
+    rep.floor(rule, 2)
+
+
 RULES = [
+    ("C11.extractor_gate", rule_extractor_gate),
     ("C11.unchanged_is_equality", rule_unchanged_is_equality),
     ("C11.params_forwarded", rule_params_forwarded_),
     ("C11.own_fields", rule_own_fields),
